@@ -245,3 +245,16 @@ class VerifyErrors:
         return expectations_keep_state_and_error(yielded)
 
     exsures = [mapped, expectations_x]
+
+
+# ------------------------------------------------------------------------------------------------- bounded stand-in
+
+
+def _native(tier, seed):
+    from harness import error_replies
+
+    return error_replies.run(tier, seed, "C04/aiohomekit.protocol#native")
+
+
+VerifyErrors.bounded_run = staticmethod(_native)
+VerifyErrors.bound_note = "the real state machines against the scripted independent accessory answering with Error / wrong State at every step (real TLV bytes, real cryptography)"
